@@ -26,6 +26,8 @@ var addrPool = []string{
 	"git::http://example.com/x.git", "https://example.com/dl?archive=tar.gz", "git::https://example.com/x.git?ref=a&ref=b",
 	"https::https://example.com/x.tgz", "git::git://example.com/x.git", "GIT::HTTPS://EXAMPLE.com/x.git", "https://example.com//x.tgz",
 	"https://[::1]:8443/x.tgz", "git::https://example.com/x.git//../..", "https://example.com/x.tgz?archive=zip&archive=tgz",
+	// ';' was once a separator of query arguments: what follows it is an argument for whoever still splits there
+	"https://example.com/x.tgz?checksum=1;a=b", "git::https://example.com/x.git?ref=main;depth=1", "https://example.com/x.tgz?a=b;archive=zip",
 }
 
 const addrAlphabet = "abxyzAZ019-._~/:@?&=+$,;!*'()[]"
